@@ -231,3 +231,54 @@ SAFETY = {
         },
     ),
 }
+
+# ----------------------------------------------------------------------------- multi-way union
+# Ghost symbols (bound by cv/kvc/manyexec.py at the filter comprehension): K non-empty arrays, lengths L(a) >= 1,
+# elements E(a, i), segment starts CS(a); psum / seg_ok as defined there.
+
+MANY_SHAPE = [
+    "num_arrays == K and len(values) == CS(K) and len(result) == CS(K) and len(limits) == K and len(pointers) == K",
+    "forall(a, 0, K, limits[a] == CS(a + 1))",
+    "seg_ok(pointers)",
+    "0 <= result_len and result_len <= psum(pointers, K)",
+]
+MANY_INNER_SHAPE = [
+    "0 <= arrnum and arrnum <= num_arrays",
+    "min_arrnum == -1 or (0 <= min_arrnum and min_arrnum < num_arrays and pointers[min_arrnum] < limits[min_arrnum])",
+]
+
+SAFETY_MANY = {
+    "set_union_merge_many": dict(
+        requires=["K < 2**31", "CS(K) < 2**31"],
+        ensures=["0 <= len(out) and len(out) <= CS(K)"],
+        loops={1: MANY_SHAPE, 2: MANY_INNER_SHAPE},
+    ),
+}
+
+MANY_FUNCTIONAL_OUTER = MANY_SHAPE + [
+    "inc(result, result_len)",
+    # sound: every output element is an element of the concatenation
+    "forall(t, 0, result_len, mem(result[t], values, CS(K)))",
+    # complete for what the pointers have consumed
+    "forall(a, 0, K, forall(q, CS(a), pointers[a], mem(values[q], result, result_len)))",
+    # every output element is <= every unconsumed head
+    "forall(t, 0, result_len, forall(a, 0, K, (pointers[a] < limits[a]) >> (result[t] <= values[pointers[a]])))",
+    # each segment of the concatenation is strictly increasing
+    "forall(a, 0, K, forall(i, j, CS(a), CS(a + 1), values[i] < values[j]))",
+]
+MANY_FUNCTIONAL_INNER = [
+    "0 <= arrnum and arrnum <= num_arrays",
+    "min_arrnum == -1 or (0 <= min_arrnum and min_arrnum < arrnum and pointers[min_arrnum] < limits[min_arrnum] and min_value == values[pointers[min_arrnum]])",
+    "forall(a, 0, arrnum, (pointers[a] < limits[a]) >> (min_arrnum != -1 and min_value <= values[pointers[a]]))",
+]
+FUNCTIONAL_MANY = {
+    "set_union_merge_many": dict(
+        requires=["K < 2**31", "CS(K) < 2**31", "forall(a, 0, K, forall(i, j, 0, L(a), E(a, i) < E(a, j)))"],
+        ensures=[
+            "inc(out, len(out))",
+            "forall(a, 0, K, forall(i, 0, L(a), mem(E(a, i), out, len(out))))",
+            "forall(t, 0, len(out), exists(a, 0, K, exists(i, 0, L(a), out[t] == E(a, i))))",
+        ],
+        loops={1: MANY_FUNCTIONAL_OUTER, 2: MANY_FUNCTIONAL_INNER},
+    ),
+}
